@@ -17,5 +17,10 @@ for pkg in vlib.PKGS:
     if os.path.isdir(os.path.join(vlib.HARNESS_GO, pkg)):
         b, out = vlib.go_test_binary(pkg)
         print(pkg, 'ok' if b else 'FAILED\n' + out[-2000:])
+# the race-detector build of the C17 harness is slow when cold
+b, out = vlib.go_test_binary("newrelic", race=True, only=["c17"])
+print('newrelic (race, c17)', 'ok' if b else 'FAILED\n' + out[-2000:])
+b, out = vlib.go_build_daemon()
+print('daemon binary', 'ok' if b else 'FAILED\n' + out[-2000:])
 PY
 echo setup done
